@@ -3,10 +3,14 @@ package c01
 import (
 	"context"
 	"errors"
+	"path/filepath"
 	"testing"
 	"time"
 
+	ocispec "github.com/opencontainers/image-spec/specs-go/v1"
+	"oras.land/oras-go/v2"
 	"oras.land/oras-go/v2/content/file"
+	"oras.land/oras-go/v2/content/oci"
 	"pgregory.net/rapid"
 
 	"verif/harness/copyx"
@@ -40,6 +44,8 @@ func genCase(t *rapid.T) copyx.Case {
 			c.MapTo = rapid.SampledFrom(cands).Draw(t, "mapTo")
 		}
 	}
+	c.SrcTagAnn = rapid.Bool().Draw(t, "srcTagAnn")
+	c.Again = rapid.Bool().Draw(t, "again")
 	root := c.Root
 	if c.API == "copy-maproot" {
 		root = c.MapTo
@@ -208,6 +214,35 @@ func runCase(c copyx.Case) (res vt.Result, fail *vt.Fail) {
 		}
 		if got.Digest != root.Desc.Digest || got.Size != root.Desc.Size {
 			return res, vt.Failf("C01/tag-points-elsewhere", "%s: Resolve(%q) = %s, expected root %s", c.API, ref, gen.TripleKey(got), gen.TripleKey(root.Desc))
+		}
+		refs := []string{ref}
+		if c.Again && c.DstKind != "remote" && (c.API == "copy" || c.API == "copy-blankdst") {
+			// the root is present now: Copy under a second reference only tags it
+			const ref2 = "again"
+			d2, err := oras.Copy(context.Background(), e.Src.(oras.ReadOnlyTarget), copyx.SrcRef, e.Dst, ref2, oras.DefaultCopyOptions)
+			if err != nil || gen.TripleKey(d2) != gen.TripleKey(root.Desc) {
+				return res, vt.Failf("C01/second-copy-failed", "Copy of the already present root under reference %q returned %s, %v", ref2, gen.TripleKey(d2), err)
+			}
+			refs = append(refs, ref2)
+			res.Classes = append(res.Classes, "copied-again-under-second-reference")
+		}
+		views := map[string]interface {
+			Resolve(context.Context, string) (ocispec.Descriptor, error)
+		}{"destination": e.RawDst}
+		if c.DstKind == "oci" {
+			re, err := oci.New(filepath.Join(e.Dir, "dst"))
+			if err != nil {
+				return res, vt.Failf("C01/reopen-failed", "%v", err)
+			}
+			views["reopened destination layout"] = re
+		}
+		for name, v := range views {
+			for _, r := range refs {
+				got, err := v.Resolve(context.Background(), r)
+				if err != nil || got.Digest != root.Desc.Digest || got.Size != root.Desc.Size {
+					return res, vt.Failf("C01/root-not-tagged", "%s: Resolve(%q) on the %s = %s, %v; expected root %s", c.API, r, name, gen.TripleKey(got), err, gen.TripleKey(root.Desc))
+				}
+			}
 		}
 	}
 	// nodes reachable only through foreign edges whose content the source does not
